@@ -13,7 +13,7 @@ import (
 // state (two concurrent calls doing so would be a data race by the Go memory model).
 func VerifC10WriteSet() {
 	ep := v.Choice("entry", 4)
-	prof := verifProfiles[v.Choice("profile", 3)]
+	prof := verifProfiles[v.Choice("profile", len(verifProfiles))]
 	v.Scope("v")
 	v.TrackWrites(true)
 	verifGuard(func() {
